@@ -211,6 +211,79 @@ theorem fourier_weight_inner (sf : Nat → ℝ) (k : Nat → Nat → ℝ) (x y :
   refine sum_congr rfl (fun j _ => ?_)
   rw [← phase_sub, Real.cos_sub]; ring
 
+
+/-! ### weighted version: covers the Fourier method as a theorem about the ensemble -/
+
+noncomputable def wgtW (s : Nat → ℝ) (k : Nat → Nat → ℝ) (x : Nat → ℝ) (dim N : Nat) (j : Nat) : ℝ :=
+  if j < N then s j * Real.cos (phase k x dim j) else s (j - N) * Real.sin (phase k x dim (j - N))
+
+theorem field_as_combination_weighted {Ω : Type} (s : Nat → ℝ) (k : Nat → Nat → ℝ) (x : Nat → ℝ) (dim N : Nat)
+    (z1 z2 : Nat → Ω → ℝ) (ω : Ω) :
+    ∑ j ∈ range N, ((s j * Real.cos (phase k x dim j)) * z1 j ω + (s j * Real.sin (phase k x dim j)) * z2 j ω) =
+    ∑ j ∈ range (N + N), wgtW s k x dim N j * amp N z1 z2 j ω := by
+  have : ∀ j, wgtW s k x dim N j * amp N z1 z2 j ω =
+      if j < N then (s j * Real.cos (phase k x dim j)) * z1 j ω
+      else (s (j - N) * Real.sin (phase k x dim (j - N))) * z2 (j - N) ω := by
+    intro j; unfold wgtW amp; split <;> rfl
+  simp only [this]
+  rw [sum_two_blocks N (fun j => (s j * Real.cos (phase k x dim j)) * z1 j ω) (fun j => (s j * Real.sin (phase k x dim j)) * z2 j ω)]
+
+/-- **covariance given the modes, arbitrary per-mode weights `s_j`**: for any probability space on which the `2N`
+    amplitudes have identity second moments and for ANY wave vectors / mode lattice,
+    `E[u(x) u(y)] = Σ_j s_j² cos⟨k_j, x − y⟩`. -/
+theorem cov_given_modes_weighted {Ω : Type} [MeasurableSpace Ω] (μ : Measure Ω)
+    (s : Nat → ℝ) (k : Nat → Nat → ℝ) (dim N : Nat) (x y : Nat → ℝ) (z1 z2 : Nat → Ω → ℝ)
+    (hint : ∀ i < N + N, ∀ j < N + N, Integrable (fun ω => amp N z1 z2 i ω * amp N z1 z2 j ω) μ)
+    (horth : ∀ i < N + N, ∀ j < N + N, ∫ ω, amp N z1 z2 i ω * amp N z1 z2 j ω ∂μ = if i = j then 1 else 0) :
+    ∫ ω, (∑ j ∈ range N, ((s j * Real.cos (phase k x dim j)) * z1 j ω + (s j * Real.sin (phase k x dim j)) * z2 j ω)) *
+          (∑ j ∈ range N, ((s j * Real.cos (phase k y dim j)) * z1 j ω + (s j * Real.sin (phase k y dim j)) * z2 j ω)) ∂μ =
+      ∑ j ∈ range N, s j ^ 2 * Real.cos (phase k (fun d => x d - y d) dim j) := by
+  simp only [field_as_combination_weighted]
+  rw [integral_mul_sum_orthonormal μ (N + N) _ _ _ hint horth]
+  have : ∀ j, wgtW s k x dim N j * wgtW s k y dim N j =
+      if j < N then (s j * Real.cos (phase k x dim j)) * (s j * Real.cos (phase k y dim j))
+      else (s (j - N) * Real.sin (phase k x dim (j - N))) * (s (j - N) * Real.sin (phase k y dim (j - N))) := by
+    intro j; unfold wgtW; split <;> rfl
+  simp only [this]
+  rw [sum_two_blocks N (fun j => (s j * Real.cos (phase k x dim j)) * (s j * Real.cos (phase k y dim j)))
+        (fun j => (s j * Real.sin (phase k x dim j)) * (s j * Real.sin (phase k y dim j)))]
+  exact fourier_weight_inner s k x y dim N
+
+/-- **Fourier method, ensemble covariance**: the field the code computes (`fourierField` = the regenerated kernel
+    `summate_fourier` applied to the generator's arrays) at two points `a`, `b` of the position array has, over any
+    amplitude law with identity second moments, the covariance `Σ_j sf_j² cos⟨k_j, x_a − x_b⟩`; with the code's weights
+    `sf_j = sqrt(S_j ∏Δk)` and a non-negative spectrum this is the Riemann sum `Σ_j S(k_j) ∏Δk cos⟨k_j, x_a − x_b⟩` of the
+    spectral integral over the mode lattice. -/
+theorem fourier_cov_given_modes {Ω : Type} [MeasurableSpace Ω] (μ : Measure Ω)
+    (S dk : Nat → ℝ) (modes : Nat → Nat → ℝ) (pos : Nat → Nat → ℝ) (dim N X a b : Nat) (ha : a < X) (hb : b < X)
+    (hS : ∀ j < N, 0 ≤ S j * forRange 1 dim (dk 0) fun d acc => acc * dk d)
+    (z1 z2 : Nat → Ω → ℝ)
+    (hint : ∀ i < N + N, ∀ j < N + N, Integrable (fun ω => amp N z1 z2 i ω * amp N z1 z2 j ω) μ)
+    (horth : ∀ i < N + N, ∀ j < N + N, ∫ ω, amp N z1 z2 i ω * amp N z1 z2 j ω ∂μ = if i = j then 1 else 0) :
+    ∫ ω, fourierField (spectrumFactor S dk dim) modes (fun j => z1 j ω) (fun j => z2 j ω) pos dim N X a *
+         fourierField (spectrumFactor S dk dim) modes (fun j => z1 j ω) (fun j => z2 j ω) pos dim N X b ∂μ =
+      ∑ j ∈ range N, (S j * forRange 1 dim (dk 0) fun d acc => acc * dk d) *
+        Real.cos (phase modes (fun d => pos d a - pos d b) dim j) := by
+  simp only [fourier_linear _ _ _ _ _ _ _ _ _ ha, fourier_linear _ _ _ _ _ _ _ _ _ hb]
+  rw [cov_given_modes_weighted μ (spectrumFactor S dk dim) modes dim N (fun d => pos d a) (fun d => pos d b) z1 z2 hint horth]
+  exact sum_congr rfl fun j hj => by rw [spectrumFactor_sq S dk dim j (hS j (mem_range.mp hj))]
+
+/-- in particular the pointwise variance of the Fourier field is the spectral mass carried by the mode lattice,
+    `Σ_j S(k_j) ∏Δk` — the quantity the search compares with the integral of the spectrum over the lattice box -/
+theorem fourier_variance_given_modes {Ω : Type} [MeasurableSpace Ω] (μ : Measure Ω)
+    (S dk : Nat → ℝ) (modes : Nat → Nat → ℝ) (pos : Nat → Nat → ℝ) (dim N X a : Nat) (ha : a < X)
+    (hS : ∀ j < N, 0 ≤ S j * forRange 1 dim (dk 0) fun d acc => acc * dk d)
+    (z1 z2 : Nat → Ω → ℝ)
+    (hint : ∀ i < N + N, ∀ j < N + N, Integrable (fun ω => amp N z1 z2 i ω * amp N z1 z2 j ω) μ)
+    (horth : ∀ i < N + N, ∀ j < N + N, ∫ ω, amp N z1 z2 i ω * amp N z1 z2 j ω ∂μ = if i = j then 1 else 0) :
+    ∫ ω, fourierField (spectrumFactor S dk dim) modes (fun j => z1 j ω) (fun j => z2 j ω) pos dim N X a *
+         fourierField (spectrumFactor S dk dim) modes (fun j => z1 j ω) (fun j => z2 j ω) pos dim N X a ∂μ =
+      ∑ j ∈ range N, (S j * forRange 1 dim (dk 0) fun d acc => acc * dk d) := by
+  rw [fourier_cov_given_modes μ S dk modes pos dim N X a a ha ha hS z1 z2 hint horth]
+  refine sum_congr rfl fun j _ => ?_
+  have : phase modes (fun d => pos d a - pos d a) dim j = 0 := by simp [phase]
+  rw [this, Real.cos_zero, mul_one]
+
 /-! ### nugget and sphere sampler -/
 
 /-- adding independent nugget noise `√nugget · ε` adds exactly `nugget` to the variance -/
